@@ -388,6 +388,12 @@ const (
 	// JSONForceLarge: every container in the large format (a server keeps the
 	// large format when a large value shrinks by an in-place partial update).
 	JSONForceLarge
+	// JSONKeyGaps: natural sizes, but dead bytes lie between the keys of every
+	// object (and behind the last one): what MySQL 8.0 leaves behind when a member
+	// is removed in place (JSON_REMOVE as a partial update: the entries are cut
+	// out of the tables, the key and value bytes stay, the size field stays).
+	// Only for documents well below 64 KB (the sizing does not count the gaps).
+	JSONKeyGaps
 )
 
 // jsonVarLen appends the variable-length size prefix.
@@ -678,10 +684,16 @@ func jsonContainer(b []byte, d *JDoc, large bool, f JSONFormat) []byte {
 			if len(k) > math.MaxUint16 {
 				panic("ref: JSON key longer than 65535 bytes")
 			}
+			if f == JSONKeyGaps && i > 0 {
+				b = append(b, "gone"...) // the key of a member that was removed in place
+			}
 			e := keyEntries + i*(w+2)
 			jsonPutN(b, e, uint32(len(b)-start), large)
 			binary.LittleEndian.PutUint16(b[e+w:], uint16(len(k)))
 			b = append(b, k...)
+		}
+		if f == JSONKeyGaps && n > 0 {
+			b = append(b, "gone-too"...)
 		}
 	}
 	for i, c := range d.Elems {
